@@ -350,8 +350,6 @@ fn run(ev: &mut Ev, model: &mut Model, opts: &Opts, roundtrip: bool) {
             // the model's output and the value must survive
             let depth = r.usize(3);
             let canon = unhex_s(&model.ask(&format!("fmt-ml {depth} {}", hx(&v))));
-            let hyps = model.ask(&format!("ml-hyps {}", hx(&v)));
-            ev.hit(&format!("string:roundtrip-multi:hyps:{hyps}"));
             ev.case(&("roundtrip-multi", depth, &v), true);
             // (1) an independent, hand-laid-out literal of the same value: margin of our choosing
             let margin = " ".repeat(r.usize(6));
@@ -399,25 +397,16 @@ fn run(ev: &mut Ev, model: &mut Model, opts: &Opts, roundtrip: bool) {
                 disagree(ev, "parse of formatted multi-line literal", &format!("fmt-ml-roundtrip {depth} {}", hx(&v)), &out, &got2, &pred2);
             }
             if got2 != want {
+                // C17.escape_multi_roundtrip holds for every value (since fix a7d7642)
                 ev.hit("string:roundtrip-multi:value-changed");
-                if hyps == "ok" {
-                    // the theorem's hypotheses hold and yet the value changed: not explained
-                    ev.violation(
-                        "string-roundtrip style=multi hyp=ok",
-                        &format!("multi-line string value {v:?} becomes {:?} after formatting although it satisfies the hypotheses of C17.escape_multi_roundtrip", got2),
-                        json!({"kind": "string", "value": v, "source": src, "formatted": out, "reparsed": got2}),
-                        true,
-                    );
-                } else {
-                    ev.violation(
-                        &format!("string-roundtrip style=multi hyp={hyps}"),
-                        &format!("multi-line string value {v:?} becomes {:?} after formatting (excluded point of C17.escape_multi_roundtrip: {hyps})", unhx(got2.strip_prefix("text ").unwrap_or("-"))),
-                        json!({"kind": "string", "value": v, "source": src, "formatted": out, "reparsed": got2, "hypothesis_violated": hyps}),
-                        true,
-                    );
-                }
-            } else if hyps != "ok" {
-                ev.hit("string:roundtrip-multi:excluded-point-survives");
+                ev.violation(
+                    "string-roundtrip style=multi",
+                    &format!("multi-line string value {v:?} becomes {:?} after formatting", unhx(got2.strip_prefix("text ").unwrap_or("-"))),
+                    json!({"kind": "string", "value": v, "source": src, "formatted": out, "reparsed": got2}),
+                    true,
+                );
+            } else {
+                ev.hit("string:roundtrip-multi:value-preserved");
             }
         }
     }
